@@ -12,6 +12,9 @@ def run(ctx):
         r = ctx.tlc("lexer-" + name, "mc/MC_Lexer.tla", cfg, {"K": k}, min_states=mn, timeout=3400, heap="14g")
         ctx.replay("lexer-%s-scan" % name, "lex", r["dump"], min_cases=mn)
         ctx.replay("lexer-%s-parse" % name, "lexparse", r["dump"], min_cases=mn)
+    # a line break may not precede ".", "!." or a call's "(": postfix chains with line-break variants (shared with C02)
+    r = ctx.tlc("postfix", "mc/MC_Grammar.tla", "mc/MC_Grammar_postfix.cfg", {"K": 8 if th else 7}, min_states=900000, timeout=3000, heap="12g")
+    ctx.replay("postfix-replay", "grammar", r["dump"], min_cases=900000)
     r = ctx.tlc("chars", "mc/MC_Chars.tla", "mc/MC_Chars.cfg", min_states=1000, workers=4)
     ctx.replay("chars-all-codepoints", "chars", r["dump"], min_cases=1000)
     tr = ctx.record("scan-random", "parse", ["-n", 40000 if th else 3000, "-maxlen", 120 if th else 60], env_extra=None)
